@@ -135,7 +135,7 @@ func c13Run(c *Ctx) {
 		lit := "{" + strings.Join(props, ", ") + "}"
 		plit := "{" + strings.Join(plain, ", ") + "}"
 		var src string
-		switch r.Intn(9) {
+		switch r.Intn(10) {
 		case 0: // side effects of initialisers in source order
 			src = Lines(Fun("p", "t, v", " "+Print("t")+" "+Ret("v")+" "), Var("o", lit), Print("o"))
 		case 1: // repeated listings of an unmodified object
@@ -152,6 +152,8 @@ func c13Run(c *Ctx) {
 			src = Lines(Var("o", plit), Var("vs", BI("values", "o")), Print("vs[0] / (vs[1] - vs[1])"))
 		case 7: // nested literals with probes at several levels
 			src = Lines(Fun("p", "t, v", " "+Print("t")+" "+Ret("v")+" "), Var("o", "{"+perm[0]+": "+lit+", "+perm[1]+": ["+lit+"]}"), Print("o"))
+		case 8: // self-containing values holding multi-key objects, printed several times
+			src = Lines(Var("o", plit), "o.self = o;", Var("arr", "[o, "+plit+", 1]"), "arr[2] = arr;", Print("o"), Print("arr"), Print("o"), Print("arr"), Var("x", plit), Var("y", "{back: x, "+plain[0]+"}"), "x.fwd = y;", Print("x"), Print("[y, x, y]"))
 		default: // listing used as data
 			src = Lines(Var("o", plit), Var("acc", `""`), Var("ks", BI("keys", "o")), For(Var("i", "0"), "i < "+BI("len", "ks"), "i = i + 1", "{ acc = acc + ks[i] + \",\"; }"), Print("acc"))
 		}
